@@ -2,6 +2,7 @@
 
 import math
 import os
+import struct
 import random
 import shutil
 import sys
@@ -313,21 +314,23 @@ def run_is_ok_without_max_read(ctx, case, data, tmp, container, spelling, rng, r
         return False
 
 
-def large_file_case(ctx, tmp, rng):
-    """one recording of more than 8 MiB: lazily and eagerly loaded raw/wav files against the bytes reference."""
-    rate, width, channels = 16000, 1, 1
-    block = 800
-    loud = bytes([60, 196]) * (block // 2)
+def large_file_case(ctx, tmp, rng, fmt=(16000, 1, 1, 0.05), size=9 * 1024 * 1024):
+    """one recording of several MiB: lazily and eagerly loaded raw/wav files against the bytes reference.  Formats and windows
+    vary so that internal chunk sizes (64 KiB, 1 MiB, 8 MiB) fall at every phase of a window and of a sample."""
+    rate, width, channels, aw = fmt
+    bps = width * channels
+    block = int(aw * rate) * bps
+    loud = (bytes([60, 196]) * block)[:block] if width == 1 else struct.pack("<h" if width == 2 else "<i", 9000 if width == 2 else 9000 * 65536) * (block // width)
     quiet = bytes(block)
     parts = []
     total = 0
-    while total < 9 * 1024 * 1024:
+    while total < size:
         k = rng.choice((3, 7, 20, 45))
         g = rng.choice((2, 9, 30))
         parts.append(loud * k + quiet * g)
         total += (k + g) * block
-    data = b"".join(parts)[: 9 * 1024 * 1024 + 123 * 1]
-    kw = dict(min_dur=0.1, max_dur=2.0, max_silence=0.2, analysis_window=0.05, energy_threshold=30)
+    data = b"".join(parts)[: (size + 123 * bps) // bps * bps]
+    kw = dict(min_dur=2 * aw, max_dur=40 * aw, max_silence=4 * aw, analysis_window=aw, energy_threshold=30)
     ref = sig(auditok.split(data, sr=rate, sw=width, ch=channels, **kw), rate)
     p_raw = os.path.join(tmp, "big.raw")
     with open(p_raw, "wb") as fp:
@@ -364,6 +367,9 @@ def run_shard(ctx):
     try:
         if ctx.shard == 0 or ctx.tier == "thorough" and ctx.shard < 4:
             large_file_case(ctx, tmp, ctx.rng("large"))
+        elif ctx.shard in (1, 2, 3):
+            fmt = ((16000, 2, 1, 0.01), (44100, 2, 2, 0.02), (8000, 4, 1, 0.005))[ctx.shard - 1]
+            large_file_case(ctx, tmp, ctx.rng("large"), fmt=fmt, size=int(2.3 * 1024 * 1024))
         for i in range(conf["audios"]):
             case = AC.random_split_case(rng, max_windows=30, small_rate=(i % 4 != 0))
             run_audio(ctx, case, tmp, rng, ctx.tier == "thorough")
